@@ -2,8 +2,9 @@
 From Coq Require Import Lia ZArith List Bool.
 From Schwifty Require Import Lib.Base Lib.Lit Model.Clean Model.Data Model.Bban Model.National Model.Algorithms Model.Germany.
 From Schwifty Require Import Spec.NationalPublished Spec.Bundesbank.
-From Schwifty Require Import Proofs.NationalFacts Proofs.NationalDigits Proofs.GermanFacts.
-From Schwifty Require Import Gen.Env Gen.IbanCfg Gen.ChecksumCfg Gen.GermanyTbl.
+From Schwifty Require Import Model.Registry Model.Lookup Spec.Iso13616.
+From Schwifty Require Import Proofs.NationalFacts Proofs.NationalDigits Proofs.NationalCountries Proofs.RandomFacts Proofs.GermanFacts.
+From Schwifty Require Import Gen.Env Gen.IbanData Gen.IbanCfg Gen.ChecksumCfg Gen.GermanyTbl Gen.Banks.
 From Coq Require Import String.
 Import ListNotations.
 Open Scope list_scope.
@@ -29,13 +30,24 @@ Definition method_class (code : string) : option gclass :=
 
 Lemma method_algo code g :
   method_class code = Some g ->
-  exists acc, the_algos (tx "DE") (s2t code) = Some (german_algo nd_runs german_table account_code_length g acc).
+  exists cls acc, assoc (tx "DE" ++ [58%N] ++ s2t code) registered = Some (cls, acc) /\
+    the_algos (tx "DE") (s2t code) = Some (german_algo nd_runs german_table account_code_length g acc).
 Proof.
   unfold method_class, the_algos, the_find_algo, find_algo. intro H.
   destruct (assoc (tx "DE" ++ [58%N] ++ s2t code) registered) as [[cls acc]|]; [|discriminate].
   destruct (national_class the_env nd_runs (ic_alphabet the_iban_cfg) cls acc); [discriminate|].
-  exists acc. unfold the_german, german_class. rewrite H. reflexivity.
+  exists cls, acc. split; [reflexivity|]. unfold the_german, german_class. rewrite H. reflexivity.
 Qed.
+
+(* what is proved of a method code: its registered class judges every ten-digit account number as the Bundesbank
+   description of that code does *)
+Definition method_statement (code : string) : Prop :=
+  exists g cls acc, method_class code = Some g /\
+    assoc (tx "DE" ++ [58%N] ++ s2t code) registered = Some (cls, acc) /\
+    the_algos (tx "DE") (s2t code) = Some (german_algo nd_runs german_table account_code_length g acc) /\
+    forall account expected, forallb is_ascii_digit account = true -> List.length account = 10%nat ->
+      verdict (al_validate (german_algo nd_runs german_table account_code_length g acc) [account] expected)
+      = bb_accept code (digs account).
 
 (* the verdict depends on nothing but the method's resolved class and the account number *)
 Theorem C07_only_account : forall nd tbl acl g a1 a2,
@@ -89,24 +101,19 @@ Proof.
   repeat (destruct H as [H|H]; [injection H as <- <- <- <- <- <- <- <-; reflexivity|]). destruct H.
 Qed.
 
-Theorem C07_std : forall code a b c q res ws m, In (code, (a, b, c), q, res, ws, m) std_methods ->
-  exists g acc, method_class code = Some g /\
-    the_algos (tx "DE") (s2t code) = Some (german_algo nd_runs german_table account_code_length g acc) /\
-    forall account expected, forallb is_ascii_digit account = true -> List.length account = 10%nat ->
-      verdict (al_validate (german_algo nd_runs german_table account_code_length g acc) [account] expected)
-      = bb_accept code (digs account).
+Theorem C07_std : forall code a b c q res ws m, In (code, (a, b, c), q, res, ws, m) std_methods -> method_statement code.
 Proof.
   intros code a b c q res ws m Hin.
   pose proof C07_std_obl as O. rewrite forallb_forall in O. specialize (O _ Hin). unfold std_entry_ok in O.
   destruct (method_class code) as [g|] eqn:Eg; [|discriminate].
   apply andb_true_iff in O as [Hv Hok].
-  destruct (method_algo code g Eg) as [acc Hal]. exists g, acc. split; [reflexivity|]. split; [exact Hal|].
+  destruct (method_algo code g Eg) as (cls & acc & Hreg & Hal). exists g, cls, acc.
+  split; [exact Eg|]. split; [exact Hreg|]. split; [exact Hal|].
   intros account expected Hdig Hlen. cbn [al_validate german_algo]. unfold validate1.
   unfold is_vdefault in Hv. destruct (g_validate g); try discriminate.
   rewrite (std_spec code a b c q res ws m Hin). rewrite C07_len_obl.
   exact (std_method nd_runs C07_nd_obl german_table g a b c q res ws m account Hok Hdig Hlen).
 Qed.
-
 
 (* ---- methods that wrap the template: 08 (small numbers are not checked), 09 (no check), 63 (leading zero required),
         99 (a range of numbers is not checked) ------------------------------------------------------------------ *)
@@ -135,51 +142,35 @@ Proof. vm_cast_no_check (conj (eq_refl true) (conj (eq_refl true) (conj (eq_refl
 Ltac wrap_start O code :=
   unfold wrap_ok in O; destruct (method_class code) as [g|] eqn:Eg; [|discriminate];
   apply andb_true_iff in O as [O Hextra]; apply andb_true_iff in O as [Hv Hok]; apply kv_eqb_eq in Hv;
-  destruct (method_algo code g Eg) as [acc Hal]; exists g, acc; split; [reflexivity|]; split; [exact Hal|];
-  intros account expected Hdig Hlen; cbn [al_validate german_algo]; rewrite C07_len_obl.
+  destruct (method_algo code g Eg) as (cls & acc & Hreg & Hal); exists g, cls, acc; split; [first [reflexivity|exact Eg]|]; split; [exact Hreg|];
+  split; [exact Hal|]; intros account expected Hdig Hlen; cbn [al_validate german_algo]; rewrite C07_len_obl.
 
-Theorem C07_m08 : exists g acc, method_class "08" = Some g /\
-  the_algos (tx "DE") (s2t "08") = Some (german_algo nd_runs german_table account_code_length g acc) /\
-  forall account expected, forallb is_ascii_digit account = true -> List.length account = 10%nat ->
-    verdict (al_validate (german_algo nd_runs german_table account_code_length g acc) [account] expected)
-    = bb_accept "08" (digs account).
+Theorem C07_m08 : method_statement "08".
 Proof.
-  destruct C07_wrap_obl as (O & _). wrap_start O "08"%string. apply Z.eqb_eq in Hextra.
+  destruct C07_wrap_obl as (O & _). unfold method_statement. wrap_start O "08"%string. apply Z.eqb_eq in Hextra.
   rewrite (m08_method nd_runs C07_nd_obl german_table g _ _ _ _ _ _ _ account Hv Hok Hdig Hlen), Hextra. reflexivity.
 Qed.
 
-Theorem C07_m99 : exists g acc, method_class "99" = Some g /\
-  the_algos (tx "DE") (s2t "99") = Some (german_algo nd_runs german_table account_code_length g acc) /\
-  forall account expected, forallb is_ascii_digit account = true -> List.length account = 10%nat ->
-    verdict (al_validate (german_algo nd_runs german_table account_code_length g acc) [account] expected)
-    = bb_accept "99" (digs account).
+Theorem C07_m99 : method_statement "99".
 Proof.
-  destruct C07_wrap_obl as (_ & O & _). wrap_start O "99"%string.
+  destruct C07_wrap_obl as (_ & O & _). unfold method_statement. wrap_start O "99"%string.
   rewrite (m99_method nd_runs C07_nd_obl german_table g _ _ _ _ _ _ _ account Hv Hok Hdig Hlen). reflexivity.
 Qed.
 
-Theorem C07_m63 : exists g acc, method_class "63" = Some g /\
-  the_algos (tx "DE") (s2t "63") = Some (german_algo nd_runs german_table account_code_length g acc) /\
-  forall account expected, forallb is_ascii_digit account = true -> List.length account = 10%nat ->
-    verdict (al_validate (german_algo nd_runs german_table account_code_length g acc) [account] expected)
-    = bb_accept "63" (digs account).
+Theorem C07_m63 : method_statement "63".
 Proof.
-  destruct C07_wrap_obl as (_ & _ & O & _). wrap_start O "63"%string.
+  destruct C07_wrap_obl as (_ & _ & O & _). unfold method_statement. wrap_start O "63"%string.
   rewrite (m63_method nd_runs C07_nd_obl german_table g _ _ _ _ _ _ _ account Hv Hok Hdig Hlen). reflexivity.
 Qed.
 
-Theorem C07_m09 : exists g acc, method_class "09" = Some g /\
-  the_algos (tx "DE") (s2t "09") = Some (german_algo nd_runs german_table account_code_length g acc) /\
-  forall account expected,
-    verdict (al_validate (german_algo nd_runs german_table account_code_length g acc) [account] expected)
-    = bb_accept "09" (digs account).
+Theorem C07_m09 : method_statement "09".
 Proof.
   destruct C07_wrap_obl as (_ & _ & _ & O). destruct (method_class "09") as [g|] eqn:Eg; [|discriminate].
-  apply kv_eqb_eq in O. destruct (method_algo "09" g Eg) as [acc Hal]. exists g, acc. split; [reflexivity|]. split; [exact Hal|].
-  intros account expected. cbn [al_validate german_algo]. rewrite C07_len_obl.
+  apply kv_eqb_eq in O. destruct (method_algo "09" g Eg) as (cls & acc & Hreg & Hal). exists g, cls, acc.
+  split; [exact Eg|]. split; [exact Hreg|]. split; [exact Hal|].
+  intros account expected _ _. cbn [al_validate german_algo]. rewrite C07_len_obl.
   rewrite (m09_method nd_runs german_table g account O). reflexivity.
 Qed.
-
 
 (* ---- 88, 26, 25, 16, 23, 91: the template with one extra rule each ------------------------------------------------ *)
 Definition kpos_eqb (x y : k_pos) : bool := match x, y with PStatic, PStatic | P88, P88 => true | _, _ => false end.
@@ -232,15 +223,8 @@ Qed.
 
 Ltac method_intro code :=
   destruct (method_class code) as [g|] eqn:Eg; [|discriminate];
-  destruct (method_algo code g Eg) as [acc Hal]; exists g, acc; split; [reflexivity|]; split; [exact Hal|];
-  intros account expected Hdig Hlen; cbn [al_validate german_algo]; rewrite C07_len_obl.
-
-Definition method_statement (code : string) : Prop :=
-  exists g acc, method_class code = Some g /\
-    the_algos (tx "DE") (s2t code) = Some (german_algo nd_runs german_table account_code_length g acc) /\
-    forall account expected, forallb is_ascii_digit account = true -> List.length account = 10%nat ->
-      verdict (al_validate (german_algo nd_runs german_table account_code_length g acc) [account] expected)
-      = bb_accept code (digs account).
+  destruct (method_algo code g Eg) as (cls & acc & Hreg & Hal); exists g, cls, acc; split; [first [reflexivity|exact Eg]|]; split; [exact Hreg|];
+  split; [exact Hal|]; intros account expected Hdig Hlen; cbn [al_validate german_algo]; rewrite C07_len_obl.
 
 Theorem C07_m88 : method_statement "88".
 Proof.
@@ -314,7 +298,157 @@ Proof.
   repeat match goal with X : std_ok _ _ _ _ _ _ _ _ = true |- _ => rewrite X; clear X end. reflexivity.
 Qed.
 
+
+(* ---- 17 and 21 ---------------------------------------------------------------------------------------------------- *)
+Lemma C07_m17_21_obl :
+  match method_class "17" with Some g => ok17 g | None => false end = true
+  /\ match method_class "21" with Some g => ok21 g | None => false end = true.
+Proof. vm_cast_no_check (conj (eq_refl true) (eq_refl true)). Qed.
+
+Theorem C07_m17 : method_statement "17".
+Proof.
+  destruct C07_m17_21_obl as (O & _). unfold method_statement. method_intro "17"%string.
+  rewrite (m17_method nd_runs C07_nd_obl german_table g account O Hdig Hlen). reflexivity.
+Qed.
+
+Theorem C07_m21 : method_statement "21".
+Proof.
+  destruct C07_m17_21_obl as (_ & O). unfold method_statement. method_intro "21"%string.
+  rewrite (m21_method nd_runs C07_nd_obl german_table g account O Hdig Hlen). reflexivity.
+Qed.
+
+(* ---- 76: the equivalence is FALSE of the code as it stands (open known finding): with remainder 10 the Bundesbank
+        says the number cannot be used; the class inherits the default rule, which turns 10 into check digit 0 ---- *)
+Theorem C07_m76_refuted :
+  match method_class "76" with
+  | Some g =>
+    let account := tx "0000005000" in
+    forallb is_ascii_digit account = true /\ List.length account = 10%nat
+    /\ verdict (validate1 nd_runs german_table 10 g account) = Some true
+    /\ bb_accept "76" (digs account) = Some false
+  | None => False
+  end.
+Proof. vm_compute. repeat split; reflexivity. Qed.
+
+
+
+(* ---- through BBAN.validate_national_checksum: the bank's method decides; unlisted bank or unimplemented method: accepted --- *)
+Section National.
+Variable T : table.
+Variable find : text -> text -> option algo.
+Variable idx : text -> text -> list entry.
+
+Lemma national_by_method cc b r en name al :
+  find_row T cc = Some r -> bban_bank T idx cc b = Ok (Some en) -> e_algo en = Some name -> find cc name = Some al ->
+  validate_national T find idx cc b =
+  (let comp c := let p := position_range r c in get_slice b (fst p) (Some (snd p)) in
+   do ok <- al_validate al (map comp (al_accepts al)) (comp k_national);
+   if ok then Ok true else Err EInvalidBBANChecksum).
+Proof.
+  intros Er Hb He Hf. unfold validate_national. rewrite Hb. cbn [bind]. rewrite He, Hf. unfold get_spec. rewrite Er. reflexivity.
+Qed.
+
+Lemma national_unlisted cc b : bban_bank T idx cc b = Ok None -> find cc k_default = None -> validate_national T find idx cc b = Ok true.
+Proof. intros Hb Hf. unfold validate_national. rewrite Hb. cbn [bind]. rewrite Hf. reflexivity. Qed.
+
+Lemma national_unimplemented cc b en name :
+  bban_bank T idx cc b = Ok (Some en) -> e_algo en = Some name -> find cc name = None -> validate_national T find idx cc b = Ok true.
+Proof. intros Hb He Hf. unfold validate_national. rewrite Hb. cbn [bind]. rewrite He, Hf. reflexivity. Qed.
+End National.
+
+(* the German row: eight-digit bank code, ten-digit account number; no default algorithm; methods read the account *)
+Fixpoint texts_eqb' (x y : list text) : bool :=
+  match x, y with [], [] => true | u :: x', v :: y' => text_eqb u v && texts_eqb' x' y' | _, _ => false end.
+Lemma texts_eqb'_eq x : forall y, texts_eqb' x y = true -> x = y.
+Proof.
+  induction x as [|u x IH]; intros [|v y] H; cbn [texts_eqb'] in H; try reflexivity; try discriminate.
+  apply andb_true_iff in H as [H1 H2]. apply Proofs.CleanFacts.text_eqb_eq in H1. subst. f_equal. apply IH. exact H2.
+Qed.
+
+Definition de_row_ok : bool :=
+  match find_row the_table (tx "DE") with
+  | Some r => all_numeric r && Z.eqb (r_bban_length r) 18 && pos_is r k_account 8 18
+  | None => false
+  end
+  && match the_algos (tx "DE") k_default with None => true | Some _ => false end
+  && forallb (fun kv => match snd kv with (_, acc) => if startswith (tx "DE:") (fst kv) then texts_eqb' acc [k_account] else true end)
+             registered.
+Lemma C07_de_obl : de_row_ok = true.
+Proof. vm_cast_no_check (eq_refl true). Qed.
+
+Definition idx_banks := bank_code_entries the_banks.
+Definition de := tx "DE".
+
+Lemma national_result (o : outcome bool) v : verdict o = Some v ->
+  (do ok <- o; if ok then Ok true else Err EInvalidBBANChecksum) = (if v then Ok true else Err EInvalidBBANChecksum).
+Proof. destruct o as [[|]|[]|x]; cbn [verdict bind]; intro H; inversion H; reflexivity. Qed.
+
+
+Lemma startswith_app p s : startswith p (p ++ s) = true.
+Proof. induction p as [|c p IH]; [reflexivity|]. cbn [app startswith]. rewrite N.eqb_refl. exact IH. Qed.
+
+(* for a structurally conforming German BBAN whose bank is listed with a method for which the equivalence above holds:
+   national validation accepts exactly when the Bundesbank method accepts the account number, and otherwise raises
+   InvalidBBANChecksum *)
+Theorem C07_national : forall code r b en,
+  method_statement code ->
+  find_row the_table de = Some r -> conforms_row r b = true ->
+  bban_bank the_table idx_banks de b = Ok (Some en) -> e_algo en = Some (s2t code) ->
+  let account := sl 8 18 b in
+  forallb is_ascii_digit account = true /\ List.length account = 10%nat /\
+  match bb_accept code (digs account) with
+  | Some true => validate_national the_table the_algos idx_banks de b = Ok true
+  | Some false => validate_national the_table the_algos idx_banks de b = Err EInvalidBBANChecksum
+  | None => True
+  end.
+Proof.
+  intros code r b en (g & cls & acc & Hmc & Hreg0 & Hal & Hspec) Er Hconf Hbank Halgo account.
+  pose proof C07_de_obl as O. unfold de_row_ok in O. fold de in O. rewrite Er in O.
+  apply andb_true_iff in O as [O Hreg]. apply andb_true_iff in O as [O _].
+  apply andb_true_iff in O as [O Hpos]. apply andb_true_iff in O as [Hnum Hlen]. apply Z.eqb_eq in Hlen.
+  pose proof (numeric_row_digits r b Hnum Hconf) as Hd.
+  assert (Hl : List.length b = 18%nat).
+  { clear - Hconf Hlen. unfold conforms_row in Hconf. destruct (row_kinds r); [|discriminate]. apply andb_true_iff in Hconf as [Hl0 _].
+    apply Z.eqb_eq in Hl0. unfold len in Hl0. lia. }
+  assert (Hda : forallb is_ascii_digit account = true) by (apply sl_forallb; exact Hd).
+  assert (Hla : List.length account = 10%nat) by (unfold account; rewrite sl_length by lia; reflexivity).
+  split; [exact Hda|]. split; [exact Hla|].
+  assert (Hacc : acc = [k_account]).
+  { apply assoc_in in Hreg0 as (k' & Ek & Hin). apply Proofs.CleanFacts.text_eqb_eq in Ek. subst k'.
+    rewrite forallb_forall in Hreg. specialize (Hreg _ Hin). cbn [fst snd] in Hreg.
+    change (tx "DE" ++ [58%N] ++ s2t code) with (tx "DE:" ++ s2t code) in Hreg. rewrite startswith_app in Hreg.
+    apply texts_eqb'_eq in Hreg. exact Hreg. }
+  subst acc.
+  rewrite (national_by_method the_table the_algos idx_banks de b r en (s2t code) _ Er Hbank Halgo Hal).
+  cbv zeta. cbn [al_accepts german_algo map].
+  rewrite !(comp_sl r _ _ _ b) by (first [eassumption|lia]). fold account.
+  specialize (Hspec account (let p := position_range r k_national in get_slice b (fst p) (Some (snd p))) Hda Hla).
+  cbn [al_validate german_algo] in Hspec. cbn [al_validate german_algo].
+  destruct (bb_accept code (digs account)) as [[|]|]; [| |exact I].
+  - exact (national_result _ true Hspec).
+  - exact (national_result _ false Hspec).
+Qed.
+
+(* unlisted bank: accepted; listed with a method the library does not implement: accepted *)
+Theorem C07_unlisted : forall b,
+  bban_bank the_table idx_banks de b = Ok None -> validate_national the_table the_algos idx_banks de b = Ok true.
+Proof.
+  intros b Hb. apply national_unlisted; [exact Hb|].
+  pose proof C07_de_obl as O. unfold de_row_ok in O. apply andb_true_iff in O as [O _]. apply andb_true_iff in O as [_ O].
+  fold de in O. destruct (the_algos de k_default); [discriminate|reflexivity].
+Qed.
+
+Theorem C07_unimplemented : forall b en name,
+  bban_bank the_table idx_banks de b = Ok (Some en) -> e_algo en = Some name -> the_algos de name = None ->
+  validate_national the_table the_algos idx_banks de b = Ok true.
+Proof. intros b en name Hb He Hf. exact (national_unimplemented the_table the_algos idx_banks de b en name Hb He Hf). Qed.
+
+Print Assumptions C07_national.
+Print Assumptions C07_unlisted.
 Print Assumptions C07_only_account.
+Print Assumptions C07_m17.
+Print Assumptions C07_m21.
+Print Assumptions C07_m76_refuted.
 Print Assumptions C07_m88.
 Print Assumptions C07_m26.
 Print Assumptions C07_m25.
